@@ -105,6 +105,17 @@ class Axis:
         return Val(inner.rank, inner.batch)
       if base.batch is None:
         return base
+      # x[..., None, :] / x[:, None]: an index made of one None and otherwise full slices / an ellipsis only inserts a unit axis
+      idx = t.args[1]
+      items = list(idx.args) if idx.op == 'tuple' else [idx]
+      is_none = lambda y: (y.op == 'const' and cval(y) is None) or (y.op == 'ext' and y.args[0].endswith('.newaxis'))
+      is_full = lambda y: (y.op == 'slice' and all(z.op == 'const' and cval(z) is None for z in y.args)) or (y.op == 'const' and cval(y) is Ellipsis)
+      nones = [i for i, y in enumerate(items) if is_none(y)]
+      if len(nones) == 1 and all(is_full(y) for i, y in enumerate(items) if i != nones[0]) and base.batch != MIXED:
+        k = nones[0]
+        has_ell_before = any(y.op == 'const' and cval(y) is Ellipsis for y in items[:k])
+        a = (base.rank + 1 - (len(items) - k)) if has_ell_before else k
+        return Val(base.rank + 1, base.batch + (1 if a <= base.batch else 0))
       raise AxisError(f'indexing a batched value: {show(t, maxdepth=3)}')
     if op == 'attr':
       if t.args[1] in ('shape', 'ndim', 'dtype', 'size'):
